@@ -96,6 +96,7 @@ type c02Cfg struct {
 	P2PSX   bool   `json:"p2psx,omitempty"` // P2PStateExchangeExtensions (state jump scenario)
 	KOLS    bool   `json:"kols,omitempty"`  // KeepOnlyLatestState
 	Trusted uint32 `json:"trusted,omitempty"` // TrustedHeader index (hash taken from the source chain)
+	NoVerify bool  `json:"noverify,omitempty"` // VerifyTransactions off
 }
 
 const (
@@ -119,6 +120,9 @@ func (c c02Cfg) hook(b *config.Blockchain) {
 		b.StateSyncInterval = c02SSI
 	}
 	b.Ledger.KeepOnlyLatestState = c.KOLS
+	if c.NoVerify {
+		b.VerifyTransactions = false
+	}
 }
 
 var c02Nop = zap.NewNop()
